@@ -1,7 +1,7 @@
 (* C16 — executable model of the repository's own e-mail logic (definitions only):
      mbox_email_extractor.py   MBOX_FROM_PATTERN / _split_mbox_messages (re-used from C03.Extract),
                                _unfold_header, decode_header_value, parse_email_address(es),
-                               get_body_content, the Date fallback of parse_email_message
+                               get_body_content_joined, the Date fallback of parse_email_message
      eml_email_extractor.py    _read_eml_format field mapping over a mailparser result record
      data_types.py             EmailContent.__post_init__ / iterate_units / get_full_text /
                                iterate_supported_attachments (router = C07.Model)
@@ -57,6 +57,16 @@ Definition lines_ok (m : mbox_msg) : bool := is_from_line (fst m) && is_line (fs
 Definition mbox_file (msgs : list mbox_msg) : str := List.concat (flat msgs).
 Definition split_result (msgs : list mbox_msg) : list str :=
   filter C03.Lib.nonempty (map rstrip_crlf (bodies msgs)).
+
+(* ALTERNATIVE (not the code at HEAD): _split_mbox_messages as fixes/proposed-not-applied/C16-mbox-unquote-from.patch would make it: MBOXRD_QUOTED_FROM_PATTERN.sub(rb"\1", chunk)
+   (one ">" removed from every line matching ^>+From ), then rstrip(b"\r\n").  C03.Extract.split_mbox_messages is the
+   code at HEAD. *)
+Definition unquote_bytes (b : str) : str := List.concat (map unesc_line (split_lines b)).
+Definition split_mbox_messages_rd (data : str) : list str :=
+  filter C03.Lib.nonempty (map (fun c => rstrip_crlf (unquote_bytes c)) (mbox_collect (split_lines data) false [])).
+(* a message none of whose lines is a quoted From_ line is left alone by the unquoting *)
+Definition unquote_fixed (b : str) : bool := forallb (fun l => str_eqb (unesc_line l) l) (split_lines b).
+Definition bmsg_ok_rd (eol : str) (m : bmsg) : bool := bmsg_ok eol m && unquote_fixed (snd m ++ eol ++ eol).
 
 (* ================================================================== header unfolding (_unfold_header) *)
 Definition is_wsp (c : N) : bool := N.eqb c 32 || N.eqb c 9.
@@ -140,29 +150,93 @@ End Header.
 (* the Date header: parsedate_to_datetime(...).isoformat(), "" when it raises TypeError/ValueError *)
 Definition date_field (parsed : option str) : str := match parsed with Some d => d | None => [] end.
 
-(* ================================================================== get_body_content *)
-(* one node of the parsed MIME tree: get_content_type(), str(part.get("Content-Disposition", "")),
-   bool(get_payload(decode=True)), the payload decoded with the declared charset / utf-8 fallback
-   (decode_fallback above; recorded), sub-parts (get_payload() when is_multipart()) *)
-Inductive part := Part (ctype disp : str) (has_payload : bool) (text : str) (kids : list part).
+(* ================================================================== get_body_content_joined / get_attachments_joined *)
+(* one node of the parsed MIME tree: get_content_type(), str(part.get("Content-Disposition", "")), get_filename() ("" =
+   None), decode_header_value(get_filename()), is_multipart(), bool(get_payload(decode=True)), the payload decoded
+   with the declared charset / utf-8 fallback (_decode_text_payload; recorded), sub-parts *)
+Inductive part := Part (ctype disp fname dname : str) (multi has_payload : bool) (text : str) (kids : list part).
 
-Definition p_ctype (p : part) := match p with Part c _ _ _ _ => c end.
-Definition p_disp (p : part) := match p with Part _ d _ _ _ => d end.
-Definition p_has (p : part) := match p with Part _ _ h _ _ => h end.
-Definition p_text (p : part) := match p with Part _ _ _ t _ => t end.
-Definition p_kids (p : part) := match p with Part _ _ _ _ k => k end.
+Definition p_ctype (p : part) := match p with Part c _ _ _ _ _ _ _ => c end.
+Definition p_disp (p : part) := match p with Part _ d _ _ _ _ _ _ => d end.
+Definition p_fname (p : part) := match p with Part _ _ f _ _ _ _ _ => f end.
+Definition p_dname (p : part) := match p with Part _ _ _ n _ _ _ _ => n end.
+Definition p_multi (p : part) := match p with Part _ _ _ _ m _ _ _ => m end.
+Definition p_has (p : part) := match p with Part _ _ _ _ _ h _ _ => h end.
+Definition p_text (p : part) := match p with Part _ _ _ _ _ _ t _ => t end.
+Definition p_kids (p : part) := match p with Part _ _ _ _ _ _ _ k => k end.
 
 (* email.message.Message.walk(): pre-order *)
 Fixpoint walk (p : part) : list part :=
-  match p with Part _ _ _ _ ks => p :: flat_map walk ks end.
+  match p with Part _ _ _ _ _ _ _ ks => p :: flat_map walk ks end.
 
 Fixpoint contains (x sub : str) : bool :=
   startswith x sub || match x with [] => false | _ :: r => contains r sub end.
 
 Definition TEXT_PLAIN : str := s "text/plain".
 Definition TEXT_HTML : str := s "text/html".
-Definition is_attachment (p : part) : bool := contains (p_disp p) (s "attachment").
+(* _is_attachment_part *)
+Definition att_fields (disp fname : str) : bool := contains disp (s "attachment") || C03.Lib.nonempty fname.
+Definition is_attachment_joined (p : part) : bool := att_fields (p_disp p) (p_fname p).
 
+(* _classify_parts: an attachment is never descended into *)
+Fixpoint inline_parts (p : part) : list part :=
+  match p with
+  | Part _ d f _ multi _ _ ks =>
+      if att_fields d f then [] else if multi then flat_map inline_parts ks else [p]
+  end.
+Fixpoint attachment_parts (p : part) : list part :=
+  match p with
+  | Part _ d f _ multi _ _ ks =>
+      if att_fields d f then [p] else if multi then flat_map attachment_parts ks else []
+  end.
+
+(* the loop of get_body_content_joined: (plain_parts, html_parts) *)
+Definition body_step_joined (single : bool) (st : list str * list str) (p : part) : list str * list str :=
+  let '(pl, ht) := st in
+  if str_eqb (p_ctype p) TEXT_HTML then (if p_has p then (pl, ht ++ [p_text p]) else st)
+  else if str_eqb (p_ctype p) TEXT_PLAIN || single then (if p_has p then (pl ++ [p_text p], ht) else st)
+  else st.
+
+Definition get_body_content_joined (root : part) : str * str :=
+  let '(pl, ht) := fold_left (body_step_joined (negb (p_multi root))) (inline_parts root) ([], []) in
+  (joinNL pl, joinNL ht).
+
+(* declarative specification *)
+Definition sel_html (p : part) : bool := str_eqb (p_ctype p) TEXT_HTML && p_has p.
+Definition sel_plain (single : bool) (p : part) : bool :=
+  negb (str_eqb (p_ctype p) TEXT_HTML) && (str_eqb (p_ctype p) TEXT_PLAIN || single) && p_has p.
+Definition body_spec_joined (root : part) : str * str :=
+  (joinNL (map p_text (filter (sel_plain (negb (p_multi root))) (inline_parts root))),
+   joinNL (map p_text (filter sel_html (inline_parts root)))).
+
+(* one-hole contexts: plug ctx p puts p into the innermost frame first *)
+(* a frame is a multipart container (only those have sub-parts) *)
+Record frame := mkFrame { f_ctype : str; f_disp : str; f_fname : str; f_dname : str; f_has : bool;
+                          f_text : str; f_left : list part; f_right : list part }.
+Fixpoint plug (ctx : list frame) (p : part) : part :=
+  match ctx with
+  | [] => p
+  | f :: ctx' => plug ctx' (Part (f_ctype f) (f_disp f) (f_fname f) (f_dname f) true (f_has f) (f_text f)
+                                 (f_left f ++ p :: f_right f))
+  end.
+
+(* get_attachments_joined: (filename, mime_type) of the EmailAttachment built for one attachment part; the bytes are the
+   decoded payload / the attached message's bytes (oracle) *)
+Definition ATTACHMENT_NAME : str := s "attachment".
+Definition or_default (x d : str) : str := if C03.Lib.nonempty x then x else d.
+Definition mbox_attachment (p : part) : str * str := (or_default (p_dname p) ATTACHMENT_NAME, p_ctype p).
+Definition get_attachments_joined (root : part) : list (str * str) := map mbox_attachment (attachment_parts root).
+
+(* ---- the code at HEAD *)
+Definition is_attachment (p : part) : bool := contains (p_disp p) (s "attachment").
+(* declarative specification of the HEAD rule: the first eligible part in document order *)
+Definition eligible (ct : str) (p : part) : bool :=
+  negb (is_attachment p) && str_eqb (p_ctype p) ct && p_has p && C03.Lib.nonempty (p_text p).
+Definition first_text (ct : str) (root : part) : str :=
+  match find (eligible ct) (walk root) with Some p => p_text p | None => [] end.
+
+(* get_body_content at HEAD (fixes/proposed-not-applied/C16-mbox-body-and-attachments.patch would replace it by get_body_content_joined): first text/plain / text/html part of walk(), parts
+   disposed as attachment skipped but still descended into; non-multipart messages: the single payload *)
 Definition body_step (st : str * str) (p : part) : str * str :=
   let '(bp, bh) := st in
   if is_attachment p then st
@@ -171,20 +245,11 @@ Definition body_step (st : str * str) (p : part) : str * str :=
   else if str_eqb (p_ctype p) TEXT_HTML && negb (C03.Lib.nonempty bh) then
     (if p_has p then (bp, p_text p) else st)
   else st.
-
-Definition get_body_content (multipart : bool) (root : part) : str * str :=
-  if multipart then fold_left body_step (walk root) ([], [])
+Definition get_body_content (root : part) : str * str :=
+  if p_multi root then fold_left body_step (walk root) ([], [])
   else if p_has root then
     (if str_eqb (p_ctype root) TEXT_HTML then ([], p_text root) else (p_text root, []))
   else ([], []).
-
-(* declarative specification: the first eligible part in document order *)
-Definition eligible (ct : str) (p : part) : bool :=
-  negb (is_attachment p) && str_eqb (p_ctype p) ct && p_has p && C03.Lib.nonempty (p_text p).
-Definition first_text (ct : str) (root : part) : str :=
-  match find (eligible ct) (walk root) with Some p => p_text p | None => [] end.
-
-(* proper descendants *)
 Definition below (p : part) : list part := flat_map walk (p_kids p).
 
 (* ================================================================== EmailContent *)
@@ -298,9 +363,7 @@ Definition mime_fallback_ok (T : C07.Model.tables) : bool :=
 
 (* ================================================================== _read_eml_format (mailparser result -> fields) *)
 Record mp_attachment := mkMpAtt { mp_filename : str; mp_ctype : str }.   (* "" = missing / None *)
-Definition ATTACHMENT_NAME : str := s "attachment".
 Definition OCTET_STREAM : str := s "application/octet-stream".
-Definition or_default (x d : str) : str := if C03.Lib.nonempty x then x else d.
 
 (* (filename, mime_type, is_supported_mime_type) of the EmailAttachment built for one mailparser attachment *)
 Definition eml_attachment (T : C07.Model.tables) (a : mp_attachment) : str * str * bool :=
@@ -312,3 +375,99 @@ Definition eml_attachment (T : C07.Model.tables) (a : mp_attachment) : str * str
 Definition eml_filter (l : list (str * str)) : list (str * str) := filter (fun t => C03.Lib.nonempty (snd t)) l.
 (* text_plain / text_html: "\n".join(list) *)
 Definition eml_body (parts : list str) : str := joinNL parts.
+
+(* ================================================================== msg_email_extractor.py (msg_parser/olefile are oracles) *)
+Definition LT : N := 60.
+Definition not_gt (c : N) : bool := negb (N.eqb c GT).
+Definition not_lt (c : N) : bool := negb (N.eqb c LT).
+Definition is_quote_char (c : N) : bool := N.eqb c 34 || N.eqb c 39.
+(* x.strip(QUOTES) with QUOTES = the double and the single quote character *)
+Definition strip_quotes (x : str) : str := rev (dropWhile is_quote_char (rev (dropWhile is_quote_char x))).
+
+(* re.search(r"<([^>]+)>\s*$", raw) on a stripped, non-empty raw: the match ends at the final ">", starts at the
+   first "<" after the last other ">", and needs at least one character in between: Some (raw[:start], group 1) *)
+Definition angle_match (raw : str) : option (str * str) :=
+  match rev raw with
+  | c :: rbody =>
+      if N.eqb c GT then
+        let tail := rev (takeWhile not_gt rbody) in
+        let pre := rev (dropWhile not_gt rbody) in
+        match dropWhile not_lt tail with
+        | _lt :: addr => if C03.Lib.nonempty addr then Some (pre ++ takeWhile not_lt tail, addr) else None
+        | [] => None
+        end
+      else None
+  | [] => None
+  end.
+
+Definition AT : N := 64.
+Definition SP : N := 32.
+Definition mem_char (c : N) (x : str) : bool := existsb (N.eqb c) x.
+
+(* _parse_single_recipient: None | Some (name, address) *)
+Definition parse_single_recipient (raw0 : str) : option (str * str) :=
+  let raw := strip raw0 in
+  if C03.Lib.nonempty raw then
+    match angle_match raw with
+    | Some (before, addr) => Some (strip_quotes (strip before), strip addr)
+    | None =>
+        if mem_char AT raw && negb (mem_char SP raw) then Some ([], raw) else Some (raw, [])
+    end
+  else None.
+
+(* re.split(r"[;,]", raw) *)
+Definition is_sep (c : N) : bool := N.eqb c 59 || N.eqb c 44.
+Fixpoint split_seps_acc (x cur : str) : list str :=
+  match x with
+  | [] => [rev cur]
+  | c :: r => if is_sep c then rev cur :: split_seps_acc r [] else split_seps_acc r (c :: cur)
+  end.
+Definition split_seps (x : str) : list str := split_seps_acc x [].
+
+Definition keep_recipient (o : option (str * str)) : list (str * str) :=
+  match o with
+  | Some (n, a) => if C03.Lib.nonempty n || C03.Lib.nonempty a then [(n, a)] else []
+  | None => []
+  end.
+(* _parse_multi_recipients on one string; on a list: the concatenation *)
+Definition parse_multi_recipients (raw : str) : list (str * str) :=
+  if C03.Lib.nonempty raw then flat_map (fun p => keep_recipient (parse_single_recipient p)) (split_seps raw) else [].
+Definition parse_multi_recipients_list (l : list str) : list (str * str) := flat_map parse_multi_recipients l.
+
+(* _looks_like_html; `lowered` = text.lstrip().lower() is recorded (str.lower is an oracle); the hint regex
+   <(html|head|body|p|div|br|span|table|tr|td|style|script)(\s|>) with IGNORECASE is modelled for ASCII case folding *)
+Definition ascii_lower (c : N) : N := if (65 <=? c) && (c <=? 90) then c + 32 else c.
+Definition HINT_TAGS : list str :=
+  [s "html"; s "head"; s "body"; s "p"; s "div"; s "br"; s "span"; s "table"; s "tr"; s "td"; s "style"; s "script"].
+Definition hint_at (x : str) : bool :=        (* the regex anchored at the head of x *)
+  match x with
+  | c :: r =>
+      N.eqb c LT &&
+      existsb (fun tag =>
+        startswith (map ascii_lower r) tag &&
+        match skipn (List.length tag) r with
+        | d :: _ => is_space d || N.eqb d GT
+        | [] => false
+        end) HINT_TAGS
+  | [] => false
+  end.
+Fixpoint hint_search (x : str) : bool :=
+  hint_at x || match x with [] => false | _ :: r => hint_search r end.
+Definition looks_like_html (text lowered : str) : bool :=
+  if C03.Lib.nonempty text then
+    startswith lowered (s "<!doctype") || contains lowered (s "<html") || contains lowered (s "<body") || hint_search text
+  else false.
+
+(* body selection of read_msg_format_mail (then __post_init__): html_to_text is an oracle *)
+Definition msg_bodies (html_to_text : str -> str) (lowered raw_body : str) : str * str :=
+  if looks_like_html raw_body lowered then (strip (html_to_text raw_body), raw_body) else (strip raw_body, []).
+
+(* sender: first parsed recipient or the empty address *)
+Definition msg_sender (sender : list str) : str * str :=
+  match parse_multi_recipients_list sender with x :: _ => x | [] => ([], []) end.
+
+(* _extract_msg_attachments: (long name, short name, mime tag) of the k-th attachment storage (1-based, counting
+   storages without data stream) -> (filename, mime_type); decimal k is supplied by the harness as a string *)
+Definition ATTACHMENT_DASH : str := s "attachment-".
+Definition msg_attachment (long short mime index_dec : str) : str * str :=
+  (or_default long (or_default short (ATTACHMENT_DASH ++ index_dec)), or_default mime (s "application/octet-stream")).
